@@ -185,6 +185,7 @@ func TestCheck(t *testing.T) {
 	}
 	if _, child := runner.IsShard(); !child && runner.ReplayPath() == "" {
 		dispatcherPart(r, t)
+		restartPart(r, t)
 	}
 	r.Assume("the virtual clock advances only while no store operation is in flight (operations take microseconds, leases seconds)")
 	r.Assume("scheduling points are the synchronisation operations of the store (mutex, atomics, SQLite connection acquisition); code between them is thread-local provided it is data-race free (side condition checked by a separate free-running -race pass)")
